@@ -42,7 +42,7 @@ pub fn build(id: &str, tier: Tier) -> Option<Check> {
         "C02" => Check {
             id: "C02",
             jobs: vec![
-                bfs(hub("c02-main", |h| { h.arm.c02 = true; h.with_registry = true; h.with_rewards = true; h.budget = tier.pick(1, 2); if !q { h.seeds = vec!["funded", "slashed_unseen", "inflight", "three_vals"]; } }), tier.pick(4, 6), secs),
+                bfs(hub("c02-main", |h| { h.arm.c02 = true; h.with_registry = true; h.with_rewards = true; h.budget = tier.pick(1, 2); if !q { h.seeds = vec!["funded", "slashed_unseen", "inflight", "three_vals"]; } }), tier.pick(4, 5), secs),
                 bfs(hub("c02-dust-pool", |h| { h.arm.c02 = true; h.seeds = vec!["dust_pool"]; h.budget = 1; h.slash_fracs = vec![(1, 2), (1, 10)]; h.with_withdraw = false; h.bond_amounts = vec![1]; }), tier.pick(4, 5), secs),
                 bfs(hub("c02-pegfee", |h| { h.arm.c02 = true; h.peg_fee = "0.01"; h.seeds = vec!["slashed"]; h.with_withdraw = false; }), tier.pick(4, 5), secs),
             ],
@@ -53,7 +53,7 @@ pub fn build(id: &str, tier: Tier) -> Option<Check> {
         "C03" => Check {
             id: "C03",
             jobs: vec![
-                bfs(hub("c03-main", |h| { h.arm.c03 = true; h.with_rewards = true; h.budget = tier.pick(1, 2); h.seeds = if q { vec!["funded", "slashed", "rewarded"] } else { vec!["funded", "slashed", "slashed_unseen", "rewarded", "inflight"] }; }), tier.pick(4, 6), secs),
+                bfs(hub("c03-main", |h| { h.arm.c03 = true; h.with_rewards = true; h.budget = tier.pick(1, 2); h.seeds = if q { vec!["funded", "slashed", "rewarded"] } else { vec!["funded", "slashed", "slashed_unseen", "rewarded", "inflight"] }; }), tier.pick(4, 5), secs),
                 bfs(hub("c03-threshold-below-one", |h| { h.arm.c03 = true; h.peg_fee = "0.01"; h.threshold = "0.9"; h.seeds = vec!["slashed_unseen", "rewarded"]; h.with_withdraw = false; h.with_transfers = true; h.budget = 1; h.slash_fracs = vec![(1, 20)]; }), tier.pick(3, 5), secs),
                 bfs(hub("c03-pegfee-big", |h| { h.arm.c03 = true; h.peg_fee = "0.005"; h.big = true; h.bond_amounts = vec![1_000_000_000_000_000_000, 1]; h.seeds = vec!["slashed", "rewarded"]; h.with_withdraw = false; }), tier.pick(3, 5), secs),
             ],
@@ -64,7 +64,7 @@ pub fn build(id: &str, tier: Tier) -> Option<Check> {
         "C04" => Check {
             id: "C04",
             jobs: vec![
-                bfs(hub("c04-nofee", |h| { h.arm.c04 = true; h.with_rewards = true; h.with_transfers = true; h.seeds = if q { vec!["funded", "slashed", "rewarded"] } else { vec!["funded", "slashed", "rewarded", "inflight", "three_vals"] }; h.budget = tier.pick(1, 2); }), tier.pick(4, 6), secs),
+                bfs(hub("c04-nofee", |h| { h.arm.c04 = true; h.with_rewards = true; h.with_transfers = true; h.seeds = if q { vec!["funded", "slashed", "rewarded"] } else { vec!["funded", "slashed", "rewarded", "inflight", "three_vals"] }; h.budget = tier.pick(1, 2); }), tier.pick(4, 5), secs),
                 bfs(hub("c04-pegfee", |h| { h.arm.c04 = true; h.peg_fee = "0.01"; h.seeds = vec!["slashed"]; h.with_registry = true; }), tier.pick(4, 5), secs),
             ],
             rule: "every non-slash transition of the hub-core exploration compares both State-query exchange rates before and after (exact Decimal comparison) whenever the token has claims on both sides; non-trivial = a transition where a rate was compared".into(),
@@ -85,7 +85,7 @@ pub fn build(id: &str, tier: Tier) -> Option<Check> {
         "C06" => Check {
             id: "C06",
             jobs: vec![
-                bfs(hub("c06-main", |h| { h.arm.c06 = true; h.with_rewards = true; h.budget = tier.pick(2, 3); h.slash_fracs = if q { vec![(1, 10)] } else { vec![(1, 10), (1, 2), (1, 10000)] }; h.seeds = if q { vec!["funded", "slashed_unseen"] } else { vec!["funded", "slashed_unseen", "inflight", "three_vals"] }; h.with_withdraw = false; }), tier.pick(4, 6), secs),
+                bfs(hub("c06-main", |h| { h.arm.c06 = true; h.with_rewards = true; h.budget = tier.pick(2, 3); h.slash_fracs = if q { vec![(1, 10)] } else { vec![(1, 10), (1, 2), (1, 10000)] }; h.seeds = if q { vec!["funded", "slashed_unseen"] } else { vec!["funded", "slashed_unseen", "inflight", "three_vals"] }; h.with_withdraw = false; }), tier.pick(4, 5), secs),
                 bfs(ulc("c06-release", |h| { h.arm.c06 = true; h.budget = tier.pick(2, 3); h.slash_vals = vec!["val1", "val2"]; h.sym = false; h.amounts_abs = vec![100, 37]; h.seeds = vec!["funded", "two_inflight"]; }), tier.pick(5, 7), secs),
                 bfs(hub("c06-onepool", |h| { h.arm.c06 = true; h.budget = 2; h.seeds = vec!["fresh"]; h.with_withdraw = false; h.with_convert = false; h.bond_amounts = vec![1000, 3]; h.slash_fracs = vec![(1, 10), (1, 2)]; }), tier.pick(4, 5), secs),
             ],
